@@ -5,6 +5,7 @@ mod c09;
 mod c10;
 mod c12;
 mod c17;
+mod c18;
 mod c20;
 mod c20x;
 mod fw;
@@ -36,6 +37,7 @@ macro_rules! registry {
             "C12" => $mac!(c12::C12),
             "C13" => $mac!(pipechecks::C13),
             "C17" => $mac!(c17::C17),
+            "C18" => $mac!(c18::C18),
             "C20" => $mac!(c20::C20),
             other => {
                 eprintln!("HARNESS-ERROR unknown check id {}", other);
@@ -45,7 +47,7 @@ macro_rules! registry {
     };
 }
 
-pub const ALL_IDS: &[&str] = &["C01", "C02", "C04", "C05", "C06", "C07", "C08", "C09", "C10", "C12", "C13", "C17", "C20"];
+pub const ALL_IDS: &[&str] = &["C01", "C02", "C04", "C05", "C06", "C07", "C08", "C09", "C10", "C12", "C13", "C17", "C18", "C20"];
 
 fn arg_val(args: &[String], name: &str) -> Option<String> {
     args.iter()
